@@ -1169,3 +1169,158 @@ Proof.
   destruct TO as (o' & TO & KO). rewrite TO.
   exists s', o'. split; [reflexivity|]. unfold k3, kinded. cbn [t_s t_p t_o]. rewrite KS, KO. reflexivity.
 Qed.
+
+(** ** documents *)
+Definition lf : ascii := ascii_of_nat 10.
+
+Lemma item_no_lf it : valid_item it = true -> ~ In lf (r_item it).
+Proof.
+  destruct it as [c | e | a b c d | a b c d e f g h]; cbn [r_item].
+  - intros V [E|[]]. subst c. discriminate.
+  - intros V [E|[E|[]]]; [discriminate|]. subst e. discriminate.
+  - cbn [valid_item forallb]. intros V. repeat (apply andb_true_iff in V; destruct V as [? V]).
+    intros I. repeat (destruct I as [E|I]; [try discriminate; subst; discriminate|]). exact I.
+  - cbn [valid_item forallb]. intros V. repeat (apply andb_true_iff in V; destruct V as [? V]).
+    intros I. repeat (destruct I as [E|I]; [try discriminate; subst; discriminate|]). exact I.
+Qed.
+
+Lemma lex_no_lf lex : forallb valid_item lex = true -> ~ In lf (r_lex lex).
+Proof.
+  induction lex as [|it lex IH]; intros V; [intros []|].
+  cbn [forallb] in V. apply andb_true_iff in V. destruct V as [Vi V].
+  rewrite r_lex_cons. apply notin_app; [apply item_no_lf; exact Vi | apply IH; exact V].
+Qed.
+
+Lemma node_no_lf n : valid_node n = true -> ~ In lf (r_node n).
+Proof.
+  destruct n as [u|lab]; cbn [valid_node r_node]; intros V.
+  - change (Str "<" ++ u ++ Str ">") with (lt_c :: u ++ [gt_c]).
+    apply notin_cons; [discriminate|]. apply notin_app.
+    + apply (forallb_notin _ _ _ (valid_iri_chars _ V)). reflexivity.
+    + intros [E|[]]; discriminate.
+  - change (Str "_:" ++ lab) with (r_bn lab). unfold r_bn.
+    apply notin_cons; [discriminate|]. apply notin_cons; [discriminate|].
+    apply (forallb_notin _ _ _ (valid_label_chars _ V)). reflexivity.
+Qed.
+
+Lemma obj_no_lf o : valid_obj o = true -> ~ In lf (r_obj o).
+Proof.
+  destruct o as [n | lex suf]; cbn [valid_obj r_obj]; intros V; [apply node_no_lf; exact V|].
+  apply andb_true_iff in V. destruct V as [V Vs].
+  apply notin_cons; [discriminate|]. apply notin_app; [apply lex_no_lf; exact V|].
+  apply notin_cons; [discriminate|].
+  destruct suf as [ | tag | dt]; cbn [r_suffix valid_suffix] in *.
+  - intros [].
+  - change (Str "@" ++ tag) with (c_at :: tag). apply notin_cons; [discriminate|].
+    apply (forallb_notin _ _ _ (valid_tag_chars _ Vs)). reflexivity.
+  - change (Str "^^<" ++ dt ++ Str ">") with (hat :: hat :: lt_c :: dt ++ [gt_c]).
+    repeat (apply notin_cons; [discriminate|]). apply notin_app.
+    + apply (forallb_notin _ _ _ (valid_iri_chars _ Vs)). reflexivity.
+    + intros [E|[]]; discriminate.
+Qed.
+
+Lemma line_no_lf t l : valid_triple t = true -> valid_layout l = true -> ~ In lf (nt_line t l).
+Proof.
+  intros V VL. destruct t as [s p o]. unfold valid_triple in V. cbn [t_s t_p t_o] in V.
+  apply andb_true_iff in V. destruct V as [V Vo]. apply andb_true_iff in V. destruct V as [Vs Vp].
+  destruct (layout_parts _ VL) as (W1 & N1 & W2 & N2 & W3 & WC & CC).
+  rewrite nt_line_shape. cbn [t_s t_p t_o].
+  apply notin_app; [apply node_no_lf; exact Vs|].
+  apply notin_app; [apply (ws_notin _ _ W1); reflexivity|].
+  apply notin_app.
+  { unfold r_iri. apply notin_cons; [discriminate|]. apply notin_app.
+    - apply (forallb_notin _ _ _ (valid_iri_chars _ Vp)). reflexivity.
+    - intros [E|[]]; discriminate. }
+  apply notin_app; [apply (ws_notin _ _ W2); reflexivity|].
+  apply notin_app; [apply obj_no_lf; exact Vo|].
+  apply notin_app; [apply (ws_notin _ _ W3); reflexivity|].
+  apply notin_cons; [discriminate|].
+  unfold r_tail. destruct (comment l) as [[w txt]|]; [|intros []].
+  apply notin_app; [apply (ws_notin _ _ WC); reflexivity|].
+  change (Str "#" ++ txt) with ("#"%char :: txt). apply notin_cons; [discriminate|].
+  apply (forallb_notin _ _ _ CC). reflexivity.
+Qed.
+
+Lemma line_not_blank t l : negb (str_eqb (strip (nt_line t l)) []) = true.
+Proof.
+  rewrite strip_line, nt_line_shape. destruct (r_node_first (t_s t)) as (c & x & E & _). rewrite E. reflexivity.
+Qed.
+
+Definition ok_case (x : striple * layout) : Prop :=
+  valid_triple (fst x) = true /\ valid_layout (snd x) = true /\ C06_dom (fst x) (snd x) = true.
+
+Lemma run_lines_ok allow : forall ts acc errs, Forall ok_case ts ->
+  exists ys, run_lines allow (map (fun x => nt_line (fst x) (snd x)) ts) acc errs = DocDone (rev acc ++ ys) errs /\
+             map k3 ys = map (fun x => kinded (fst x)) ts.
+Proof.
+  induction ts as [|[t l] ts IH]; intros acc errs H.
+  - exists []. cbn. rewrite app_nil_r. split; reflexivity.
+  - inversion H as [|? ? [V [VL D]] H']; subst. cbn [fst snd] in *. cbn [map run_lines fst snd].
+    destruct (process_line_ok allow t l V VL D) as (s & o & E & K). rewrite E.
+    destruct (IH ((s, t_p t, o) :: acc) errs H') as (ys & R & M). exists ((s, t_p t, o) :: ys). split.
+    + rewrite R. cbn [rev]. rewrite <- app_assoc. reflexivity.
+    + cbn [map]. rewrite K, M. reflexivity.
+Qed.
+
+Lemma filter_all {A} (f : A -> bool) l : forallb f l = true -> filter f l = l.
+Proof.
+  induction l as [|x l IH]; intros H; [reflexivity|]. cbn in *. apply andb_true_iff in H. destruct H as [H1 H2].
+  rewrite H1. f_equal. auto.
+Qed.
+
+Lemma raw_lines_doc ts : Forall ok_case ts ->
+  raw_string_lines (nt_doc ts) = map (fun x => nt_line (fst x) (snd x)) ts.
+Proof.
+  intros H. unfold raw_string_lines, nt_doc. change s_newline with [lf]. change [ascii_of_nat 10] with [lf].
+  destruct ts as [|x ts]; [reflexivity|].
+  rewrite split_join.
+  - apply filter_all. apply forallb_forall. intros ln I. apply in_map_iff in I.
+    destruct I as ([t l] & <- & _). apply line_not_blank.
+  - discriminate.
+  - apply Forall_forall. intros ln I. apply in_map_iff in I. destruct I as ([t l] & <- & I).
+    rewrite Forall_forall in H. destruct (H _ I) as (V & VL & _). apply line_no_lf; assumption.
+Qed.
+
+Lemma read_doc_ok allow ts : Forall ok_case ts ->
+  exists ys, read_raw_string allow (nt_doc ts) = DocDone ys 0 /\ map k3 ys = map (fun x => kinded (fst x)) ts.
+Proof.
+  intros H. unfold read_raw_string. rewrite raw_lines_doc by exact H.
+  destruct (run_lines_ok allow ts [] 0%nat H) as (ys & R & M). exists ys. split; [exact R | exact M].
+Qed.
+
+(** ** statements used by [Props/C06.v] *)
+Definition kinded_result (d : doc_result) : option (list (kterm * str * kterm) * nat) :=
+  match d with DocDone ts e => Some (map k3 ts, e) | _ => None end.
+
+Lemma document_partial allow ts : Forall ok_case ts ->
+  kinded_result (read_raw_string allow (nt_doc ts)) = Some (map (fun x => kinded (fst x)) ts, 0%nat).
+Proof.
+  intros H. destruct (read_doc_ok allow ts H) as (ys & R & M). rewrite R. cbn [kinded_result]. rewrite M. reflexivity.
+Qed.
+
+Lemma line_partial allow t l :
+  valid_triple t = true -> valid_layout l = true -> C06_dom t l = true ->
+  kinded_result (read_raw_string allow (nt_line t l)) = Some ([kinded t], 0%nat).
+Proof.
+  intros V VL D. apply (document_partial allow [(t, l)]). constructor; [|constructor].
+  unfold ok_case. cbn [fst snd]. auto.
+Qed.
+
+Lemma line_terminates allow t l :
+  valid_triple t = true -> valid_layout l = true -> C06_dom t l = true ->
+  forall ys e, read_raw_string allow (nt_line t l) <> DocHang ys e.
+Proof.
+  intros V VL D ys e H. pose proof (line_partial allow t l V VL D) as K. rewrite H in K. discriminate.
+Qed.
+
+(** [C06_dom] is exactly the absence of every root cause *)
+Lemma dom_iff_no_root_cause t l : C06_dom t l = true <-> Forall (fun b => b = false) (root_causes t l).
+Proof.
+  unfold C06_dom. generalize (root_causes t l). intros rs. induction rs as [|b rs IH]; cbn [forallb].
+  - split; [constructor | reflexivity].
+  - rewrite andb_true_iff, negb_true_iff, IH. split; [intros [? ?]; constructor; auto | intros H; inversion H; auto].
+Qed.
+
+(** on lines of the domain the reader consults [isnumeric] on blanks only:
+    the digit test of [_look_for_tokens] is never reached on any other character
+    (all steps of [chain] are token steps, blank skips and the final dot) *)
